@@ -228,6 +228,20 @@ def rootcache_shard(acc, seed: int, part: int) -> None:
                     okp = False
                 if not okp:
                     acc.violate("rootcache.protect", ["rootcache-protect", part, rnd, sid], {"outcome": kind}, size=rnd)
+    # root key BYTES with special octets at either end (ASCII white space, NUL, 0xFF, quote): the key is binary, nothing may be trimmed
+    for edge in (b" ", b"\n", b"\t\r", b"\x00", b"\xff", b"\x0b\x0c", b"'", b"="):
+        for where in ("head", "tail", "both"):
+            kb = bytearray(d.bytes(64))
+            if where in ("head", "both"):
+                kb[: len(edge)] = edge
+            if where in ("tail", "both"):
+                kb[-len(edge) :] = edge
+            rk2 = rk._replace(key=bytes(kb), rkid=d.uuid())
+            blob = cms.ref_encrypt(rk2, sids[0], PT, (360, 3, 5), cek=d.bytes(32), gcm_nonce_=d.bytes(12), key_nonce=d.bytes(32))
+            kind, val = seams.outcome_of(lambda: dpapi_ng.ncrypt_unprotect_secret(blob, cache=seams.make_cache(rk2)))
+            n += 1
+            if kind != "ok" or bytes(val) != PT:
+                acc.violate("rootcache.edge-octets", ["rootcache", part, "edge", edge.hex(), where], {"outcome": kind, "value": repr(val)[:120]})
     acc.ev(n)
     acc.nt_counted(n)
     acc.outcome("rootcache-ok", n)
